@@ -261,7 +261,8 @@ def _run(ctx, tmp, rng, click, pkg_resources, qc, app):
                 opts['-f'] = rng.randint(1, 3)
                 opts.setdefault('-r', rng.randint(1, 6))   # a failure limit alone need not terminate
             opts['-s'] = rng.randint(0, 50)
-            ps = [0.25] if 'generic.file' in e else [rng.choice([0.0, 0.05, 0.1, 0.3, 1.0]) for _ in range(rng.randint(1, 3))]
+            ps = [0.25] if 'generic.file' in e else [rng.choice([0.0, 0.05, 0.1, 0.3] + ([] if 'smwpm' in d else [1.0]))
+                                                    for _ in range(rng.randint(1, 3))]
             cases.append(('run', c, None, e, d, ps, opts))
     for (c, e, d) in [('rotated_planar(3,3)', 'generic.bit_phase_flip', 'rotated_planar.smwpm'),
                       ('rotated_toric(2,4)', 'generic.depolarizing', 'rotated_toric.smwpm'),
